@@ -120,8 +120,17 @@ Theorem batch_under_failure_general c reqs :
 Proof.
   intros Hf. unfold batch_write, v1_empty_batch. rewrite Hf.
   assert ((match s with V1 => false | V2 => false end) = false) as -> by (destruct s; reflexivity).
-  unfold batch_write_core. rewrite Hf. cbn [andb].
+  unfold batch_write_core, forced_blocks. rewrite Hf. cbv iota. cbn [andb].
   now rewrite (batch_tables_under_failure reqs c [] Hf).
+Qed.
+
+(* under the deprecated forced failure a batch write fails as a whole, whatever it holds (also when it holds nothing) *)
+Theorem batch_under_forced_failure c reqs :
+  c_failure c = Some FDeprecated -> batch_write lm s c reqs = (c, err_obs ForcedFailure).
+Proof.
+  intros Hf. unfold batch_write, v1_empty_batch. rewrite Hf.
+  assert ((match s with V1 => false | V2 => false end) = false) as -> by (destruct s; reflexivity).
+  unfold batch_write_core, forced_blocks. now rewrite Hf.
 Qed.
 
 Theorem batch_under_failure_all_unprocessed c tn rs :
